@@ -145,7 +145,11 @@ fn access(a: &Access, kind: &str) -> R<J> {
         Some(AccessSource::Identifier(n)) => json!({"k": "id", "name": n}),
         Some(AccessSource::Parameter) => json!({"k": "param"}),
         Some(AccessSource::Ripple) => json!({"k": "ripple"}),
-        Some(AccessSource::Builtin(n)) => json!({"k": "builtin", "name": n}),
+        Some(AccessSource::Builtin(n)) => {
+            // the parser strips the double underscores; the specification keeps the written name
+            let full = if n.starts_with("__") { n.clone() } else { format!("__{}__", n) };
+            json!({"k": "builtin", "name": full})
+        }
         Some(AccessSource::TailCall(n)) => {
             json!({"k": "tail", "name": n.clone().unwrap_or_default()})
         }
